@@ -42,6 +42,9 @@ PadTable(c, len, total) ==
 Runs14(c) ==
     {[label |-> "len" \o ToString(l) \o "/" \o w, tp |-> SourcesOf(c, FALSE), xcalls |-> [id \in {} |-> 0],
       pads |-> PadTable(c, l, 0), writer |-> w] : l \in Lens, w \in (IF Quick THEN {""} ELSE {"", "buffer", "plain"})}
+    \* (the same templates handed over as compiled bytes: the size classes of that route)
+    \cup {[label |-> "len" \o ToString(l) \o "/compiled", tp |-> SourcesOf(c, FALSE), xcalls |-> [id \in {} |-> 0],
+           pads |-> PadTable(c, l, 0), writer |-> "", via |-> "compiled"] : l \in Lens \cup {70000}}
     \cup (IF Cardinality(c.padAt) = 1 /\ c.ps # "e"
           THEN {[label |-> "total" \o ToString(t) \o "/", tp |-> SourcesOf(c, FALSE), xcalls |-> [id \in {} |-> 0],
                  pads |-> PadTable(c, 0, t), writer |-> ""] : t \in Totals}
